@@ -524,6 +524,25 @@ func (fl *File) Write(p []byte) (int, error) {
 
 func (fl *File) WriteString(s string) (int, error) { return fl.Write([]byte(s)) }
 
+// ReadFrom and WriteTo: what io.Copy uses when one side is a file. Like the
+// real ones after their kernel fast paths decline, they copy through a 32 KiB
+// buffer with plain reads and writes (each a call of the trace).
+func (fl *File) ReadFrom(r io.Reader) (int64, error) {
+	return io.Copy(fileWriterOnly{fl}, r)
+}
+
+func (fl *File) WriteTo(w io.Writer) (int64, error) {
+	return io.Copy(w, fileReaderOnly{fl})
+}
+
+type fileWriterOnly struct{ f *File }
+
+func (w fileWriterOnly) Write(p []byte) (int, error) { return w.f.Write(p) }
+
+type fileReaderOnly struct{ f *File }
+
+func (r fileReaderOnly) Read(p []byte) (int, error) { return r.f.Read(p) }
+
 // ReadAt and WriteAt: positional I/O (pread / pwrite), the file offset is not
 // moved; each underlying read or write is one call of the trace.
 func (fl *File) ReadAt(p []byte, off int64) (n int, err error) {
